@@ -37,15 +37,25 @@ def TOrigin (h h' : Heap) (c : Nat) (rs : List RSlot) (t : Nat) : Prop :=
 
 theorem doBlock_frame (c : Nat) (s : RSlot) (st : Style) (typ : Nat) (h : Heap) (hb : s.beh = .block st typ) :
     Frame h (doBlock c s st typ h).1 ∧ TOrigin h (doBlock c s st typ h).1 c [s] (doBlock c s st typ h).2 := by
-  cases st with
-  | fresh =>
+  have hfresh : Frame h (newTokenResult h 1 (blockVal s typ)).1 ∧
+      TOrigin h (newTokenResult h 1 (blockVal s typ)).1 c [s] (newTokenResult h 1 (blockVal s typ)).2 := by
     obtain ⟨f, e1, e2⟩ := newTokenResult_frame h 1 (blockVal s typ)
     refine ⟨f, Or.inr (Or.inl ?_)⟩
-    simp only [doBlock, e1, e2]; omega
+    simp only [e1, e2]; omega
+  cases st with
   | ctx => exact ⟨(resetToBlockedWith_frame h _ _).1, Or.inl rfl⟩
   | own =>
     refine ⟨(resetToBlockedWith_frame h _ _).1, Or.inr (Or.inr ⟨s, by simp, ?_, rfl⟩)⟩
     simp [hb, RB.needsOwn]
+  | fresh => exact hfresh
+  | bare => exact hfresh
+  | typed => exact hfresh
+  | plain => exact hfresh
+  | msg => exact hfresh
+  | ctxT =>
+    exact ⟨(resetToPass_frame h _).trans (resetToBlockedWith_frame _ _ _).1, Or.inl rfl⟩
+  | ctxM =>
+    exact ⟨(resetToPass_frame h _).trans (resetToBlockedWith_frame _ _ _).1, Or.inl rfl⟩
 
 theorem TOrigin.mono {h h1 h' : Heap} {c : Nat} {rs rs' : List RSlot} {t : Nat} (f0 : Frame h h1)
     (ho : TOrigin h1 h' c rs t) (hsub : ∀ s ∈ rs, s ∈ rs') : TOrigin h h' c rs' t := by
@@ -345,6 +355,7 @@ structure Sim (s : State) (s' : SState) : Prop where
     (∀ c, c < s.h.nctx → s.h.ctxs c < s.h.ntr)
   dirty : ∀ t, (s.h.trs t).status = 1 → ∃ m ∈ s.entries, m.exited = false ∧ s.h.ctxs m.ctx = t ∧
     ∃ r ∈ s'.entries, r.name = m.name ∧ r.blockPanic = true ∧ r.exited = false
+  notes : ∀ m ∈ s.entries, ∀ r ∈ s'.entries, m.name = r.name → m.exited = false → s.cnote m.ctx = r.note
 
 theorem Sim.snodup {s : State} {s' : SState} (x : Sim s s') : (s'.entries.map (·.name)).Nodup := by
   rw [← x.names]; exact x.nodup
@@ -459,10 +470,7 @@ theorem noOwn_of_core (ch : ChainDef) (ins : List SlotSpec) (hcore : ch.core = (
   simp only [isOwn] at this
   cases hb : s2.beh with
   | block st typ =>
-    cases st with
-    | own => simp [hb] at this
-    | fresh => rfl
-    | ctx => rfl
+    cases st <;> first | rfl | (simp [hb] at this)
   | pass => rfl
   | nil => rfl
   | wait => rfl
@@ -500,11 +508,12 @@ theorem Sim.grow {s : State} {s' : SState} (x : Sim s s') (t : State) (t' : SSta
     (he : t.entries = s.entries) (hl : t.lastLog = s.lastLog) (he' : t'.entries = s'.entries)
     (hl' : t'.lastLog = s'.lastLog) (hext : s.h.Ext t.h) (hf : Frame s.h t.h)
     (hst : ∀ u, (t.h.trs u).status = 1 → (s.h.trs u).status = 1)
-    (hc : ChainsAgree t t') (hcn : (t'.chains.map (·.1)).Nodup) (ho : t'.hasOwn = false → s'.hasOwn = false) :
+    (hc : ChainsAgree t t') (hcn : (t'.chains.map (·.1)).Nodup) (ho : t'.hasOwn = false → s'.hasOwn = false)
+    (hnote : t.cnote = s.cnote) :
     Sim t t' := by
   obtain ⟨inv', hx⟩ := hext x.inv
   have hp := poolList_frame hf
-  refine ⟨hc, hcn, ?_, ?_, ?_, ?_, ?_, inv', ?_, ?_, ?_, ?_, ?_, ?_⟩
+  refine ⟨hc, hcn, ?_, ?_, ?_, ?_, ?_, inv', ?_, ?_, ?_, ?_, ?_, ?_, ?_⟩
   · simp only [NamesAgree, he, he']; exact x.names
   · rw [he]; exact x.nodup
   · intro m hm r hr e; rw [he] at hm; rw [he'] at hr; exact (x.ents m hm r hr e).ext hx
@@ -521,6 +530,7 @@ theorem Sim.grow {s : State} {s' : SState} (x : Sim s s') (t : State) (t' : SSta
   · intro u hu
     obtain ⟨m, hm, h1, h2, r, hr, h3⟩ := x.dirty u (hst u hu)
     exact ⟨m, by rw [he]; exact hm, h1, by rw [hf.ctxs]; exact h2, r, by rw [he']; exact hr, h3⟩
+  · intro m hm r hr e hl; rw [he] at hm; rw [he'] at hr; rw [hnote]; exact x.notes m hm r hr e hl
 
 /-! ## per-op simulation -/
 
@@ -559,7 +569,7 @@ theorem sim_chain {s : State} {s' : SState} (x : Sim s s') (n : String) (slots :
     have h2 := (findChain_agree_none x.chains n).mp h1
     simp only [h1, h2] at hagree ⊢
     refine ⟨x.grow _ _ rfl rfl rfl rfl (addSlots_ext slots s.h {}) (addSlots_frame slots s.h {}).1
-      (addSlots_frame slots s.h {}).2 hagree (cnames_setChain s' x.cnames n slots) ?_, Or.inr ?_⟩
+      (addSlots_frame slots s.h {}).2 hagree (cnames_setChain s' x.cnames n slots) ?_ rfl, Or.inr ?_⟩
     · exact hasOwn_setChain_false s' x.cnames n slots (fun ins hi => by rw [h2] at hi; simp at hi)
     · exact sortedOut_of_core _ _ (addSlots_core_spec slots s.h)
 
@@ -581,7 +591,7 @@ theorem sim_add {s : State} {s' : SState} (x : Sim s s') (n : String) (slot : Sl
       have hcore : ch.core = pureChain ins := by
         have := x.chains n; rw [h1, h2] at this; simpa using this
       refine ⟨x.grow _ _ rfl rfl rfl rfl (addSlot_ext s.h ch slot) (addSlot_frame s.h ch slot).1
-        (addSlot_frame s.h ch slot).2 hagree (cnames_setChain s' x.cnames n _) ?_, Or.inr ?_⟩
+        (addSlot_frame s.h ch slot).2 hagree (cnames_setChain s' x.cnames n _) ?_ rfl, Or.inr ?_⟩
       · refine hasOwn_setChain_false s' x.cnames n _ (fun ins2 hi => ?_)
         rw [h2] at hi; simp only [Option.some.injEq] at hi; subst hi
         intro y hy; exact List.mem_append_left _ hy
@@ -632,7 +642,7 @@ theorem sim_whenexit {s : State} {s' : SState} (x : Sim s s') (e : String) (id :
         rcases (smem_setEntry s' _ y).mp hy with ⟨h, _⟩ | ⟨h, h'⟩
         · exact Or.inl h
         · exact Or.inr ⟨h, by simpa [hre] using h'⟩
-      refine ⟨x.chains, x.cnames, hnames, ?_, ?_, ?_, x.log, x.inv, x.pool_nodup, x.pool_lt, ?_, ?_, x.inj, ?_⟩
+      refine ⟨x.chains, x.cnames, hnames, ?_, ?_, ?_, x.log, x.inv, x.pool_nodup, x.pool_lt, ?_, ?_, x.inj, ?_, ?_⟩
       · rw [show (setEntry s { m with hooks := m.hooks ++ [(id, b)] }).entries.map (·.name) = s.entries.map (·.name) from
           map_replace_names s.entries _]
         exact x.nodup
@@ -681,6 +691,12 @@ theorem sim_whenexit {s : State} {s' : SState} (x : Sim s s') (e : String) (id :
         obtain ⟨z', hz'm, f1, f2, f3⟩ := hz'
         exact ⟨y', hy'm, by rw [e3]; exact yl, by rw [e2]; exact yt, z', hz'm, by rw [f1, e1]; exact zn,
           by rw [f2]; exact zb, by rw [f3]; exact zx⟩
+      · intro y hy z hz hyz hl
+        rcases hmem y hy with rfl | ⟨hy1, hy2⟩ <;> rcases hmem' z hz with rfl | ⟨hz1, hz2⟩
+        · exact x.notes m hm r hr (hme.trans hre.symm) hl
+        · exact absurd (hyz.symm.trans hme) hz2
+        · exact absurd (hyz.trans hre) hy2
+        · exact x.notes y hy1 z hz1 hyz hl
 
 theorem exitBody_heap (ss : List SSlot) (hooks : Hooks) (c : Nat) (h : Heap) :
     (exitBody ss hooks c h).1 = refurbish h c := by simp [exitBody]
@@ -713,7 +729,7 @@ theorem sim_exit {s : State} {s' : SState} (x : Sim s s') (e : String) :
       · have hx' : r.exited = true := by rw [← rel.exited]; exact hx
         simp only [hx, hx', if_true]
         refine ⟨⟨x.chains, x.cnames, x.names, x.nodup, x.ents, x.sok, ?_, x.inv, x.pool_nodup, x.pool_lt, x.live_sep,
-          x.live_inj, x.inj, x.dirty⟩, Or.inr rfl⟩
+          x.live_inj, x.inj, x.dirty, x.notes⟩, Or.inr rfl⟩
         intro l hl; simp only [Option.some.injEq] at hl; exact hl
       · have hx' : ¬ r.exited = true := by rw [← rel.exited]; exact hx
         simp only [hx, hx', Bool.false_eq_true, if_false] at hnames ⊢
@@ -750,9 +766,11 @@ theorem sim_exit {s : State} {s' : SState} (x : Sim s s') (e : String) :
               rcases (smem_setEntry _ _ y).mp hy with ⟨h, _⟩ | ⟨h, h'⟩
               · exact Or.inl h
               · exact Or.inr ⟨by rw [← hT]; exact h, by simpa [hn] using h'⟩
-            refine ⟨x.chains, x.cnames, hnames, ?_, ?_, ?_, ?_, inv', ?_, ?_, ?_, ?_, ?_, ?_⟩
-            · rw [show (setEntry ({ s with h := refurbish s.h m.ctx, lastLog := (exitBody ch.ss m.hooks m.ctx s.h).2 } : State) ({ m with exited := true } : EntryRec)).entries.map (·.name) = s.entries.map (·.name) from map_replace_names s.entries _]
-              exact x.nodup
+            refine ⟨x.chains, x.cnames, hnames, ?_, ?_, ?_, ?_, inv', ?_, ?_, ?_, ?_, ?_, ?_, ?_⟩
+            · have : ∀ (T : State) (m2 : EntryRec), T.entries = s.entries → (setEntry T m2).entries.map (·.name) = s.entries.map (·.name) := by
+                intro T m2 hT; simp only [setEntry, hT]; exact map_replace_names s.entries _
+              convert x.nodup using 1
+              exact this _ _ rfl
             · intro y hy z hz hyz
               rcases hmem _ _ y hy rfl hme with rfl | ⟨hy1, hy2⟩ <;> rcases hmem' _ _ z hz rfl hre with rfl | ⟨hz1, hz2⟩
               · exact ⟨rfl, rfl, rel.blk, rel.hooks, fun a ha => by
@@ -812,6 +830,15 @@ theorem sim_exit {s : State} {s' : SState} (x : Sim s s') (e : String) :
                 subst this; exact hne yt.symm
               refine ⟨y, (mem_setEntry _ _ _).mpr (Or.inr ⟨hy, by simpa [hme] using hyn⟩), yl, by rw [rc]; exact yt,
                 z, (smem_setEntry _ _ _).mpr (Or.inr ⟨hz, by rw [zn]; simpa [hre] using hyn⟩), zn, zb, zx⟩
+            · intro y hy z hz hyz hl
+              rcases hmem _ _ y hy rfl hme with rfl | ⟨hy1, hy2⟩
+              · simp at hl
+              · rcases hmem' _ _ z hz rfl hre with rfl | ⟨hz1, hz2⟩
+                · exact absurd (hyz.trans hre) hy2
+                · have hne : y.ctx ≠ m.ctx := fun hc => hy2 ((x.live_inj y hy1 m hm hl hlive hc).trans hme)
+                  show (upd s.cnote m.ctx {}) y.ctx = z.note
+                  simp only [upd, hne, if_false]
+                  exact x.notes y hy1 z hz1 hyz hl
 
 /-! ## what `api.entry` does to the pool and to the contexts -/
 
@@ -936,14 +963,15 @@ theorem apiEntry_facts (ch : ChainDef) (h : Heap) (hnd : (poolList h).Nodup) :
 /-! ## the `entry` op -/
 
 theorem Sim.push {s : State} {s' : SState} (x : Sim s s') (H : Heap) (c : Nat) (ch : ChainDef) (blocked : Bool)
-    (mNew : EntryRec) (rNew : SEntry) (L : List Call) (L' : Option (List Call)) (e : String)
+    (mNew : EntryRec) (rNew : SEntry) (L : List Call) (L' : Option (List Call)) (e : String) (N : Nat → CtxNote)
+    (hN : ∀ k, k ≠ c → N k = s.cnote k) (hNc : blocked = false → N c = rNew.note)
     (hF : EntryFacts s.h H c ch blocked) (hext : s.h.Ext H) (hfresh : ∀ y ∈ s.entries, y.name ≠ e)
     (hmn : mNew.name = e) (hrn : rNew.name = e) (hmc : mNew.ctx = c) (hmx : mNew.exited = blocked)
     (hrel : EntRel H mNew rNew) (hsok : SpecOk rNew) (hlog : ∀ l, L' = some l → L = l)
     (hnoown : s'.hasOwn = false → ∀ sl ∈ ch.rs, sl.beh.needsOwn = false)
     (hbp : blocked = false → prepPanics ch.ps = false → (stopOf ch.rs).verdict.isSome = true →
       rNew.blockPanic = true ∧ rNew.exited = false) :
-    Sim { s with h := H, lastLog := L, entries := s.entries ++ [mNew] }
+    Sim { s with h := H, lastLog := L, entries := s.entries ++ [mNew], cnote := N }
         { s' with lastLog := L', entries := s'.entries ++ [rNew] } := by
   obtain ⟨inv', hx⟩ := hext x.inv
   have hfresh' : ∀ y ∈ s'.entries, y.name ≠ e := by
@@ -965,7 +993,7 @@ theorem Sim.push {s : State} {s' : SState} (x : Sim s s') (H : Heap) (c : Nat) (
     · omega
   have hnle : s.h.nctx ≤ H.nctx := by
     rcases hF.nctx with ⟨_, b⟩ | ⟨_, b⟩ <;> omega
-  refine ⟨fun k => x.chains k, x.cnames, ?_, ?_, ?_, ?_, hlog, inv', hF.pool_nodup, ?_, ?_, ?_, ?_, ?_⟩
+  refine ⟨fun k => x.chains k, x.cnames, ?_, ?_, ?_, ?_, hlog, inv', hF.pool_nodup, ?_, ?_, ?_, ?_, ?_, ?_⟩
   · simp only [NamesAgree, List.map_append, List.map_cons, List.map_nil, hmn, hrn]
     exact congrArg (· ++ [e]) x.names
   · simp only [List.map_append, List.map_cons, List.map_nil, hmn]
@@ -1063,6 +1091,28 @@ theorem Sim.push {s : State} {s' : SState} (x : Sim s s') (H : Heap) (c : Nat) (
       rw [hF.other y.ctx (hcfresh y hy yl)]; exact yt
     · obtain ⟨b1, b2⟩ := hbp h2 h3 h4
       exact ⟨mNew, by simp, by rw [hmx]; exact h2, by rw [hmc]; exact h1, rNew, by simp, by rw [hrn, hmn], b1, b2⟩
+  · intro m hm r hr hmr hl
+    simp only [List.mem_append, List.mem_singleton] at hm hr
+    rcases hm with hm | rfl <;> rcases hr with hr | rfl
+    · show N m.ctx = r.note
+      rw [hN m.ctx (hcfresh m hm hl)]; exact x.notes m hm r hr hmr hl
+    · exact absurd (hmr.trans hrn) (hfresh m hm)
+    · exact absurd (hmr.symm.trans hmn) (hfresh' r hr)
+    · show N m.ctx = r.note
+      rw [hmc]; exact hNc (by rw [← hmx]; exact hl)
+
+theorem ruleNotes_core (rs : List RSlot) (n : CtxNote) : ruleNotes (rs.map RSlot.core) n = ruleNotes rs n := by
+  induction rs generalizing n with
+  | nil => rfl
+  | cons s r ih =>
+    have hb : (RSlot.core s).beh = s.beh := rfl
+    have hi : (RSlot.core s).id = s.id := rfl
+    have hn : (RSlot.core s).note = s.note := rfl
+    simp only [List.map_cons, ruleNotes, hb, hi, hn]
+    cases s.beh <;> simp [ih]
+
+theorem entryNote_core (ch : ChainDef) : entryNote ch.core = entryNote ch := by
+  simp only [entryNote, ChainDef.core, ruleNotes_core]
 
 theorem blockPanics_entryPanics (ch : ChainDef) (h : blockPanics ch = true) : entryPanics ch = true := by
   simp only [blockPanics, Bool.and_eq_true] at h
@@ -1112,17 +1162,20 @@ theorem sim_entry {s : State} {s' : SState} (x : Sim s s') (e n : String) :
           rw [← entryPanics_core, ← hcore, entryPanics_core]
         have hhk : specHooks (specChain ins) = specHooks ch := by
           rw [← specHooks_core, ← hcore, specHooks_core]
+        have hen : entryNote (specChain ins) = entryNote ch := by
+          rw [← entryNote_core, ← hcore, entryNote_core]
         obtain ⟨blocked, F, hres⟩ := apiEntry_facts ch s.h x.pool_nodup
         have hver := apiEntry_verdict ch s.h
         have hfresh := find_name_none EntryRec.name s.entries e h1
         have hnoown : s'.hasOwn = false → ∀ sl ∈ ch.rs, sl.beh.needsOwn = false :=
           fun hno => noOwn_of_core ch ins hcore (hasOwn_false_chain s' n ins hc2 hno)
-        rw [hv, hl, hbpc, hep, hhk]
+        rw [hv, hl, hbpc, hep, hhk, hen]
         rcases hres with ⟨hb, ks, hr⟩ | ⟨hb, a, b, hr⟩
         · subst hb
           have hvn : specVerdict ch = none := by rw [← hver, hr]; rfl
           simp only [hvn, recordEntry, hr]
-          refine x.push _ _ ch false _ _ _ _ e F (apiEntry_ext ch s.h) hfresh rfl rfl rfl rfl ?_ ?_ ?_ hnoown ?_
+          refine x.push _ _ ch false _ _ _ _ e _ (fun k hk => by simp [upd, hk]) (fun _ => by simp [upd]) F
+            (apiEntry_ext ch s.h) hfresh rfl rfl rfl rfl ?_ ?_ ?_ hnoown ?_
           · exact ⟨rfl, rfl, rfl, fun hp => passed_hooks ch s.h _ ks hp hr, fun a ha => by simp at ha⟩
           · exact ⟨fun hbp => blockPanics_entryPanics ch hbp, fun hv => by simp at hv⟩
           · intro l hl'; exact apiEntry_log_spec ch s.h l hl'
@@ -1131,7 +1184,8 @@ theorem sim_entry {s : State} {s' : SState} (x : Sim s s') (e n : String) :
         · subst hb
           have hvn : specVerdict ch = some b := by rw [← hver, hr]; rfl
           simp only [hvn, recordEntry, hr]
-          refine x.push _ _ ch true _ _ _ _ e F (apiEntry_ext ch s.h) hfresh rfl rfl rfl rfl ?_ ?_ ?_ hnoown ?_
+          refine x.push _ _ ch true _ _ _ _ e _ (fun k hk => by simp [upd, hk]) (fun hf => by simp at hf) F
+            (apiEntry_ext ch s.h) hfresh rfl rfl rfl rfl ?_ ?_ ?_ hnoown ?_
           · refine ⟨rfl, rfl, rfl, fun _ => rfl, fun a' ha => ?_⟩
             simp only [Option.some.injEq] at ha
             subst ha
@@ -1185,9 +1239,21 @@ theorem step_sim {s : State} {s' : SState} (x : Sim s s') (op : Op) :
   | globalorder =>
     simp only [step, sstep]
     exact ⟨x, Or.inr defaultOrder_eq⟩
+  | ctxq e p =>
+    simp only [step, sstep]
+    rcases findEntry_agree x e with ⟨h1, h2⟩ | ⟨m, r, h1, h2, hm, hr, hme, hre, rel⟩
+    · simp only [h1, h2]; exact ⟨x, Or.inr rfl⟩
+    · simp only [h1, h2]
+      by_cases hq : (r.verdict.isSome || r.exited) = true
+      · simp only [hq, if_true]; exact ⟨x, Or.inl rfl⟩
+      · simp only [hq, Bool.false_eq_true, if_false]
+        simp only [Bool.or_eq_true, not_or, Bool.not_eq_true] at hq
+        have hl : m.exited = false := by rw [rel.exited]; exact hq.2
+        rw [x.notes m hm r hr (hme.trans hre.symm) hl]
+        exact ⟨x, Or.inr rfl⟩
 
 theorem init_sim : Sim {} {} := by
-  refine ⟨init_agree, List.nodup_nil, rfl, List.nodup_nil, ?_, ?_, ?_, init_inv, List.nodup_nil, ?_, ?_, ?_, ?_, ?_⟩
+  refine ⟨init_agree, List.nodup_nil, rfl, List.nodup_nil, ?_, ?_, ?_, init_inv, List.nodup_nil, ?_, ?_, ?_, ?_, ?_, ?_⟩
   · intro m hm; simp at hm
   · intro r hr; simp at hr
   · intro l hl; simp at hl; exact hl.symm
@@ -1196,6 +1262,7 @@ theorem init_sim : Sim {} {} := by
   · intro m hm; simp at hm
   · intro _; exact ⟨fun c1 c2 h1 _ => by simp at h1, fun c hc => by simp at hc⟩
   · intro t ht; simp at ht
+  · intro m hm; simp at hm
 
 /-- the answers of the model over an op history -/
 def runOuts (s : State) : List Op → List Out
